@@ -69,6 +69,15 @@ def gen_cases(tier, seed):
                           "poor_trial": False, "noise": 0.1, "steps": 40 if q else 200, "qr_every": 10, "sr_every": 10 ** 9, "inject": False,
                           "heavy_tiny": True, "fscale": 1.0, "s": int(rng.integers(1 << 30)), "kind": "rhf" if p == "restricted" else "uhf",
                           "group": "ht-%s-%d" % (p, rep), "cost": 6})
+    # heavy populations: before every 5th step the (hostile) driver sets the live weights to 60..99.9 - a step may never leave a weight
+    # above the cap of 100, for any propagator
+    for p in PHASELESS + CPMC:
+        for rep in range(2 if q else 8):
+            cases.append({"type": "history", "prop": p, "dt": float(rng.choice([0.02, 0.1])), "strength": 1.0, "u": float(rng.choice([4.0, 8.0])),
+                          "poor_trial": bool(rep % 2), "noise": 0.3, "steps": 40 if q else 200, "qr_every": 10, "sr_every": 10 ** 9, "inject": False,
+                          "heavy": True, "fscale": 1.0, "s": int(rng.integers(1 << 30)),
+                          "kind": "rhf" if p == "restricted" else ("uhf" if p == "unrestricted" or rep % 2 == 0 else "ghf"),
+                          "group": "hv-%s-%d" % (p, rep), "cost": 6})
     for wt in ("rhf", "uhf"):
         for rep in range(6 if q else 30):
             cases.append({"type": "sampler", "wt": wt, "dt": float(10.0 ** rng.uniform(-4, 0.3)), "strength": float(rng.choice([0.3, 1.0, 3.0, 5.0])),
@@ -237,6 +246,10 @@ def run_history(case):
                 pd["weights"] = jnp.array(heavy)
                 pd["pop_control_ene_shift"] = pd["pop_control_ene_shift"] + math.log(1e-3 / float(np.median(f_probe))) / case["dt"]
                 cnt["heavy_tiny_steps"] = cnt.get("heavy_tiny_steps", 0) + 1
+        if case.get("heavy") and step % 5 == 4 and float(jnp.sum(pd["weights"])) > 0:
+            alive_now = np.asarray(pd["weights"]) > 0
+            pd["weights"] = jnp.array(np.where(alive_now, rng.uniform(60.0, 99.9, size=nw), 0.0))
+            cnt["heavy_steps"] = cnt.get("heavy_steps", 0) + 1
         w_prev = np.asarray(pd["weights"]).copy()
         pd = prop.propagate(trial, hd, pd, jnp.array(fields), wd)
         cnt["steps_observed"] += 1
